@@ -306,8 +306,10 @@ def describe(objs, reg_pairs, kids_fn, tag_fn, id_fn, do_updates=True):
     holders = {}
 
     def d(o, getter):
-        if isinstance(o, list):
+        if isinstance(o, (list, tuple)):
             return '[' + ','.join(d(e, (lambda o=o, i=i: o[i])) for i, e in enumerate(o)) + ']'
+        if o is None:
+            return '-'
         k = id(o)
         if k in num:
             holders[num[k]].append(getter)
@@ -349,4 +351,7 @@ def run(data, registry=None):
     except Exception as e:
         return 'err|' + type(e).__name__
     pairs = dic.pairs if isinstance(dic, Reg) else list(dic.items())
-    return describe(objs, pairs, real_kids, real_tag, real_id)
+    try:
+        return describe(objs, pairs, real_kids, real_tag, real_id)
+    except Exception as e:  # a loaded graph the description cannot walk (never the case on well-formed output)
+        return 'bad|describe-' + type(e).__name__
